@@ -139,6 +139,10 @@ class Run:
             harness_fail = "vacuous exploration: a single distinct observed outcome"
 
         rep_dir = os.path.join(VERIF, "replays", self.pid)
+        if os.path.isdir(rep_dir):          # artefacts of earlier runs are stale
+            for fn in os.listdir(rep_dir):
+                if fn.endswith(".json"):
+                    os.unlink(os.path.join(rep_dir, fn))
         lines = []
         seen_keys = {}
         nrep = 0
